@@ -537,6 +537,7 @@ static inline void bg_vec_list_u__resize(bg_adj *a, bg_size k, const bg_list *v)
       m->s.restCount--;                                                         \
       bg_scratch_val_##TAG.has = 0;                                           \
     }                                                                         \
+    bg_scratch_val_##TAG.valid = 0;                                           \
     return r;                                                                 \
   }                                                                           \
   static inline void bg_map_##TAG##__clear(bg_map_##TAG *m) {                 \
